@@ -17,7 +17,7 @@ def gen(rng, tier):
         names = qgen.query_names(rng, zones)
         owners = {tuple(o) for z in zones for o in z.owners + [z.apex]}
         for nm in names:
-            core = tuple(nm) in owners
+            core = tuple(nm) in owners or any(tuple(nm) == o[len(o) - len(nm):] for o in owners if len(nm) <= len(o))
             if quick and not core and rng.random() < 0.9:
                 continue
             qn = qgen.flip(rng, nm, 0.1)
